@@ -66,6 +66,7 @@ func (m *idxModel) Render() *dump.Tree {
 }
 
 type idxScenario struct {
+	base      []string // bucket path of the store below the database root (default: just "root")
 	store     *world.Store
 	nameIdx   boltz.ReadIndex
 	aliasIdx  boltz.ReadIndex
@@ -78,11 +79,15 @@ type idxScenario struct {
 	ops       []explore.Op
 }
 
-func newIdxScenario(ids []string) *idxScenario {
-	sc := &idxScenario{ids: ids}
+func newIdxScenario(ids []string) *idxScenario { return newIdxScenarioAt(ids, []string{"root"}) }
+
+// newIdxScenarioAt places the store below a base path of any depth (the reference image is always
+// rendered below "root"; Normalize re-roots the database image accordingly).
+func newIdxScenarioAt(ids []string, base []string) *idxScenario {
+	sc := &idxScenario{ids: ids, base: base}
 	sc.store = world.NewStore(&world.Spec{
 		EntityType: "items",
-		BasePath:   []string{"root"},
+		BasePath:   base,
 		Fields: []world.Field{
 			{Name: "name", Kind: world.KString},
 			{Name: "alias", Kind: world.KStringP},
@@ -301,6 +306,29 @@ func classifyCommon(err error) string {
 func (sc *idxScenario) Classify(err error) string { return classifyCommon(err) }
 
 func (sc *idxScenario) Normalize(t *dump.Tree) *dump.Tree {
+	if len(sc.base) > 1 {
+		// re-root: the sub-tree at the base path becomes "root"; anything else below the database root stays visible
+		nt := t.Clone()
+		sub := nt.Get(sc.base...)
+		if parent := nt.Get(sc.base[:len(sc.base)-1]...); parent != nil {
+			delete(parent.Buckets, sc.base[len(sc.base)-1])
+		}
+		for i := len(sc.base) - 2; i >= 1; i-- { // drop the now empty intermediate buckets
+			if b := nt.Get(sc.base[:i+1]...); b != nil && b.Empty() {
+				delete(nt.Get(sc.base[:i]...).Buckets, sc.base[i])
+			}
+		}
+		if sub != nil {
+			root := nt.Ensure("root")
+			for k, v := range sub.Buckets {
+				root.Buckets[k] = v
+			}
+			for k, v := range sub.Values {
+				root.Values[k] = v
+			}
+		}
+		t = nt
+	}
 	return t.PruneEmpty(func(path []string) bool {
 		// an empty key bucket in the set index is exactly what the property forbids: keep it visible
 		return len(path) == 5 && path[1] == "indexes" && path[3] == "roles"
@@ -361,7 +389,8 @@ func (sc *idxScenario) Invariant(tx *bbolt.Tx, mm explore.Model) error {
 		}
 	}
 	// index-driven lookups over several values: all-of (in index order of the first value) and any-of (as a set)
-	for _, vals := range [][]string{{}, {"r"}, {"rs"}, {"zz"}, {"r", "rs"}, {"rs", "r"}, {"r", "r"}, {"r", "zz"}, {"zz", "r"}, {"zz", "yy"}} {
+	for _, vals := range [][]string{{}, {"r"}, {"rs"}, {"zz"}, {"r", "rs"}, {"rs", "r"}, {"r", "r"}, {"r", "zz"}, {"zz", "r"}, {"zz", "yy"},
+		{"r", "rs", "r"}, {"rs", "rs", "r"}, {"r", "r", "rs"}, {"rs", "r", "zz"}, {"rs", "zz", "r"}} {
 		var all, anyOf []string
 		for id, it := range m.items {
 			hasAll, hasAny := len(vals) > 0, false
@@ -457,6 +486,11 @@ func C03(tier string) int {
 		runE1(rep, &renamed{Scenario: sc2, name: "S_idx[2 ids, 2-op tx]"}, explore.Config{Programs: pairsSubset(sc2.Ops()), SkipRejectedPrefix: true})
 		sc3 := newIdxScenario([]string{"e1", "e1x", "e2"})
 		runE1(rep, sc3, explore.Config{Programs: explore.SingleOps(len(sc3.Ops())), MaxTrans: 6_000_000})
+	}
+	// the store below a base path of three and four segments (index paths are derived from the base path)
+	for _, base := range [][]string{{"root", "dept", "unit"}, append(make([]string, 0, 8), "root", "a", "b", "c")} {
+		scd := newIdxScenarioAt([]string{"e1", "e1x"}, base)
+		runE1(rep, &renamed{Scenario: scd, name: fmt.Sprintf("S_idx[2 ids, base path of %d segments]", len(base))}, explore.Config{Programs: explore.SingleOps(len(scd.Ops()))})
 	}
 	// the same indexes under parent/child layering: entities created, updated and deleted through a plain and an
 	// extended child store (the parent's constraints then run through chained indexing contexts)
